@@ -694,9 +694,11 @@ impl StoredManifest {
 impl StoredPoint {
     // store::StoredPoint::update (store.rs:959) with the object closure of
     // PubPoint::process_collected passed as its captured variables (R17).
-    // ASSUMED generator rule: `update` calls the closure repeatedly and touches
-    // the captured state in no other way, so an invariant of the closure
-    // (proved for PubPoint::process_collected_object) holds afterwards.
+    // ASSUMED generator rule: `update` calls the closure repeatedly until it
+    // returns Ok(None) or Err, and touches the captured state in no other way,
+    // so an invariant of the closure (proved for
+    // PubPoint::process_collected_object) holds afterwards, and Ok means the
+    // closure's own end-of-objects condition was reached.
     #[verifier::external_body]
     fn update<'a, P: ProcessRun>(
         &mut self, store: &Store, manifest: StoredManifest,
@@ -713,6 +715,12 @@ impl StoredPoint {
             r is Ok ==> gen_inv(final(this), final(collected), final(ca_tasks)@, old(this), old(collected)),
             *final(point_ok) == *old(point_ok),
             final(this).same_ctx(old(this)),
+            // C03 + C04 (generator rule, second half): `update` finalises and persists the new point only
+            // after a generator call returned Ok(None) (store.rs:1003; proved in unit store_update), and
+            // the generator returns Ok(None) only with its item list exhausted, one yielded object per
+            // entry (proved for process_collected_object): so on Ok the persisted object set is the
+            // FULL item list of the manifest - every entry was loaded, hash-checked and processed
+            r is Ok ==> (*final(items)).remaining().len() == 0,
             // `update` fails (as opposed to: is abandoned) only when the closure fails or the file
             // system does
             r matches Err(UpdateError::Failed(_)) ==> !P::PubPoint::infallible() || io_failure(),
